@@ -1,7 +1,9 @@
 (* C10 driver.  argv[1] = cases, argv[2] = "-" (implementation output not needed), argv[3] = variant:
      repaired (all five repairs) | defective (none) | def_<d>[_<d>...] = exactly those defects present, d in
      hb (dual standby never promotes), if (interface notifications counted), fc (dual active needs a 2nd exchange),
-     sa (STANDBY_ALONE with a known peer is never left), ia (AdjustPriority outside the m.mu section)
+     sa (STANDBY_ALONE with a known peer is never left), ia (AdjustPriority outside the m.mu section),
+     so (a heartbeat older than one already handled is still handled), sl (a heartbeat built before the
+     receiver's last peer-loss detection is still handled)
    case:  idA prioA preA decA nifsA idB prioB preB decB nifsB op*
           id = <n> (node id "node-%05d") or s:<dotted bytes> / s:e (the id string itself)
    ops:   st<w> sd<w> dl<w>:<i> dr<w>:<i> pl<w> pt<w> dn<w>:<k> up<w>:<k> de<w>:<k> sw<w>:<f> rs<w> SW<w>:<f>
@@ -61,14 +63,15 @@ let id_of_token t : n list =
   else List.map (fun c -> n_of_int (Char.code c)) (List.of_seq (String.to_seq (Printf.sprintf "node-%05d" (int_of_string t))))
 let () =
   let vname = if Array.length Sys.argv > 3 then Sys.argv.(3) else "repaired" in
-  let all = ["hb"; "if"; "fc"; "sa"; "ia"] in
+  let all = ["hb"; "if"; "fc"; "sa"; "ia"; "so"; "sl"] in
   let mk ds = { fix_hb = not (List.mem "hb" ds); fix_if = not (List.mem "if" ds); fix_fc = not (List.mem "fc" ds);
                 fix_sa = not (List.mem "sa" ds); fix_ia = not (List.mem "ia" ds) } in
-  let v =
-    if vname = "repaired" then mk []
-    else if vname = "defective" then mk all
+  let mkf ds = { fix_so = not (List.mem "so" ds); fix_sl = not (List.mem "sl" ds) } in
+  let (v, sf) =
+    if vname = "repaired" then (mk [], mkf [])
+    else if vname = "defective" then (mk all, mkf all)
     else match String.split_on_char '_' vname with
-      | "def" :: ds when ds <> [] && List.for_all (fun d -> List.mem d all) ds -> mk ds
+      | "def" :: ds when ds <> [] && List.for_all (fun d -> List.mem d all) ds -> (mk ds, mkf ds)
       | _ -> failwith ("unknown variant " ^ vname) in
   let lines = read_lines Sys.argv.(1) in
   List.iter (fun line ->
@@ -87,24 +90,36 @@ let () =
            let cs2 = (mkc ia p.(0) p.(1) p.(2) p.(3), mkc ib p.(4) p.(5) p.(6) p.(7)) in
            let s1 = ref (init_pair cs) and s2 = ref (init_pair cs2) in
            let t1 = ref [] and t2 = ref [] in
+           let stl = ref sinit in
            let e1 e = let (s', t) = step v cs !s1 e in s1 := s'; t1 := !t1 @ t in
            let e2 e = let (s', t) = step v cs2 !s2 e in s2 := s'; t2 := !t2 @ t in
+           (* staleness is decided once per message (group 1's queue has the same shape as group 2's) *)
+           let both ea eb =
+             let (e', tt) = sdecide sf !stl !s1 ea in
+             (match e' with
+              | EStale (w, i) -> e1 e'; e2 (EStale (w, i))
+              | _ -> e1 ea; e2 eb);
+             stl := ssync tt !s1 in
            let out = ref [show !s1 [] ^ "#" ^ show !s2 []] in
            List.iter (fun tok ->
              t1 := []; t2 := [];
              if String.length tok < 3 then failwith ("bad op " ^ tok);
              let w = who_of tok.[2] in
              let a = arg tok in
+             (* events that do not concern one group are applied to the other only; bookkeeping follows group 1 *)
+             let note e = let (_, tt) = sdecide sf !stl !s1 e in stl := tt in
+             let resync () = stl := ssync !stl !s1 in
              (match String.sub tok 0 2 with
-              | "d1" -> e1 (EDeliver (w, nat_of_int a)); e2 (ETouch (w, nat_of_int a))
-              | "d2" -> e1 (ETouch (w, nat_of_int a)); e2 (EDeliver (w, nat_of_int a))
+              | "d1" -> both (EDeliver (w, nat_of_int a)) (ETouch (w, nat_of_int a))
+              | "d2" -> both (ETouch (w, nat_of_int a)) (EDeliver (w, nat_of_int a))
+              | "dl" -> both (EDeliver (w, nat_of_int a)) (EDeliver (w, nat_of_int a))
               | "dn" | "de" | "up" ->
                 let d = String.sub tok 0 2 <> "up" in
                 if a < 100 then e1 (EIf (w, nat_of_int a, d)) else e2 (EIf (w, nat_of_int (a - 100), d))
               | "S1" -> e1 (ESwLocal (w, a = 1)); e1 (ESwRemote (other w))
               | "S2" -> e2 (ESwLocal (w, a = 1)); e2 (ESwRemote (other w))
-              | "pD" | "pL" | "pS" | "rl" -> failwith "overlap ops not supported with two groups"
-              | _ -> List.iter (fun e -> e1 e; e2 e) (events_of_token tok));
+              | "pD" | "pL" | "pS" | "rl" | "xa" | "xu" -> failwith "op not supported with two groups"
+              | _ -> List.iter (fun e -> note e; e1 e; e2 e; resync ()) (events_of_token tok));
              out := (show !s1 !t1 ^ "#" ^ show !s2 !t2) :: !out) ops;
            print_endline (String.concat " " (List.rev !out))
          | _ ->
@@ -112,7 +127,9 @@ let () =
         let out = ref [show !s.f_p []] in
         let ts = ref [] in
         let probe = ref [] in
+        let stl = ref sinit in
         let fe e = let (s', t) = fstep v cs !s e in s := s'; ts := !ts @ t; t in
+        let note e = let (_, tt) = sdecide sf !stl !s.f_p e in stl := tt in
         let rec finish w = if thrs_of w !s <> [] then (ignore (fe (FMicro (w, O))); finish w) in
         List.iter (fun tok ->
           ts := []; probe := [];
@@ -121,21 +138,28 @@ let () =
           (match String.sub tok 0 2 with
            | "pD" ->
              if thrs_of w !s <> [] then failwith "two parked calls";
-             ignore (fe (FHb (w, nat_of_int (arg tok))));
-             (* run until PeerDiscovered has published a transition (parked inside Publish), else to the end *)
-             let rec go () = match thrs_of w !s with
-               | [] -> ()
-               | THbDisc _ :: _ -> let t = fe (FMicro (w, O)) in if t = [] then go ()
-               | _ -> ignore (fe (FMicro (w, O))); go () in
-             go ()
+             let (e', tt) = sdecide sf !stl !s.f_p (EDeliver (w, nat_of_int (arg tok))) in
+             stl := tt;
+             (match e' with
+              | EStale _ -> ignore (fe (FCoarse e'))
+              | _ ->
+                ignore (fe (FHb (w, nat_of_int (arg tok))));
+                (* run until PeerDiscovered has published a transition (parked inside Publish), else to the end *)
+                let rec go () = match thrs_of w !s with
+                  | [] -> ()
+                  | THbDisc _ :: _ -> let t = fe (FMicro (w, O)) in if t = [] then go ()
+                  | _ -> ignore (fe (FMicro (w, O))); go () in
+                go ())
            | "pL" ->
              if thrs_of w !s <> [] then failwith "two parked calls";
+             note (EPeerLost w);
              ignore (fe (FLost w)); ignore (fe (FMicro (w, O)))
            | "pS" ->
              if thrs_of w !s <> [] then failwith "two parked calls";
+             note (EPeerLost w);
              ignore (fe (FLost w)); ignore (fe (FMicro (w, O)));
              let t = fe (FMicro (w, O)) in if t = [] then finish w
-           | "rl" -> finish w
+           | "rl" -> note (ESend w); finish w
            | "xa" | "xu" ->
              (* lock probe: is m.mu held when AdjustPriority is entered (only asked for tracked interfaces) *)
              let k = nat_of_int (arg tok) in
@@ -143,7 +167,10 @@ let () =
              if tracked c k then
                probe := [(match w with A -> "a" | B -> "b") ^ (if v.fix_ia then ":mu=held" else ":mu=free")];
              ignore (fe (FCoarse (EIf (w, k, String.sub tok 0 2 = "xa"))))
-           | _ -> List.iter (fun e -> ignore (fe (FCoarse e))) (events_of_token tok));
+           | _ -> List.iter (fun e ->
+                    let (e', tt) = sdecide sf !stl !s.f_p e in
+                    ignore (fe (FCoarse e')); stl := ssync tt !s.f_p) (events_of_token tok));
+          stl := ssync !stl !s.f_p;
           out := show_p !s.f_p !probe !ts :: !out) ops;
         print_endline (String.concat " " (List.rev !out)))
       with Failure m -> print_endline ("badcase " ^ m))
